@@ -6,6 +6,7 @@ mod common;
 mod corpus;
 mod dataset;
 mod engine;
+mod explorer;
 mod graph_adapter;
 mod props;
 mod qast;
